@@ -106,7 +106,22 @@ func (p *Program) findFunc(key string) *ssa.Function {
 		}
 		return p.prog.MethodValue(sel)
 	}
-	return sp.Func(name)
+	fn := sp.Func(name)
+	if fn != nil && fn.TypeParams().Len() > 0 {
+		// a generic function: the body that exists in SSA form is that of an instantiation; take the first one
+		// (in name order) that the program uses
+		var insts []*ssa.Function
+		for f := range ssautil.AllFunctions(p.prog) {
+			if f.Origin() == fn {
+				insts = append(insts, f)
+			}
+		}
+		sort.Slice(insts, func(i, j int) bool { return insts[i].String() < insts[j].String() })
+		if len(insts) > 0 {
+			return insts[0]
+		}
+	}
+	return fn
 }
 
 func (p *Program) findLemma(pkg, name string) *Lemma {
@@ -303,12 +318,9 @@ func (p *Program) GenFunc(fc *FuncContract, prop string) (res *FuncResult) {
 			rn["result"] = r.results[0]
 		}
 		// parameters keep their entry values in postconditions (Go parameters are local copies)
-		for k, v := range old.names {
-			if _, isParam := names[k]; isParam {
-				if !v.IsPtr && v.Origin == nil {
-					rn[k] = v
-				}
-			}
+		for _, prm := range fn.Params {
+			// (a slice/map/pointer parameter still denotes the caller's object, read in the state at return)
+			rn[prm.Name()] = old.names[prm.Name()]
 		}
 		rsc := &Scope{ex: ex, names: rn, st: r.st, old: old, bound: map[string]Term{}}
 		for _, lt := range fc.PostLets {
